@@ -662,19 +662,74 @@ static void run_search(uint64_t seed, long streams)
 }
 
 
-/* ------------------------------------------------------------------ self-reference corpus (regression oracle) */
-typedef struct { const char *name; int Fs, ch, app, bitrate, mode, maxbw, dur10, fec, nframes, lose_at, trans; } cstream;
+/* ------------------------------------------------------------------ self-reference corpus (regression oracle)
+   A transition / edge-case matrix of short streams rather than steady-state material: every ordered triple of
+   {SILK-only, Hybrid, CELT-only} (all ordered pairs included), bandwidth-driven switches, 10 ms stereo variants,
+   low-rate switches, CELT/hybrid onsets after digital silence from low-complexity encoders (inter-coded onsets),
+   plus a few steady-state streams and a loss + FEC decode. */
+typedef struct { int mode, bw, bitrate, nframes; } cseg;   /* mode 0 = OPUS_AUTO with OPUS_SET_BANDWIDTH(bw) */
+typedef struct { const char *name; int Fs, ch, app, dur10, cx, fec, lose_at, sig; cseg seg[4]; } cstream;
+#define SEG_S(n) {MODE_SILK_ONLY, OPUS_BANDWIDTH_WIDEBAND, 20000, n}
+#define SEG_H(n) {MODE_HYBRID, OPUS_BANDWIDTH_FULLBAND, 32000, n}
+#define SEG_C(n) {MODE_CELT_ONLY, OPUS_BANDWIDTH_FULLBAND, 48000, n}
+#define TRIPLE(nm, A, B, C) {nm, 48000, 1, OPUS_APPLICATION_VOIP, 200, 9, 0, -1, 1, {A(3), B(3), C(3), {0, 0, 0, 0}}}
+#define TRIPLE10S(nm, A, B, C) {nm, 48000, 2, OPUS_APPLICATION_VOIP, 100, 9, 0, -1, 1, {A(3), B(3), C(3), {0, 0, 0, 0}}}
+#define ONSET(nm, Fs, ch, dur10, cx, mode, bw, rate, nfr) {nm, Fs, ch, OPUS_APPLICATION_AUDIO, dur10, cx, 0, -1, 2, {{mode, bw, rate, nfr}, {0, 0, 0, 0}}}
 static const cstream CORPUS[] = {
-   {"silk_nb_20_m",  8000, 1, OPUS_APPLICATION_VOIP, 10000, MODE_SILK_ONLY, OPUS_BANDWIDTH_NARROWBAND, 200, 0,  9, -1, 0},
-   {"silk_mb_10_m", 12000, 1, OPUS_APPLICATION_VOIP, 14000, MODE_SILK_ONLY, OPUS_BANDWIDTH_MEDIUMBAND, 100, 0, 14, -1, 0},
-   {"silk_wb_20_s", 16000, 2, OPUS_APPLICATION_VOIP, 26000, MODE_SILK_ONLY, OPUS_BANDWIDTH_WIDEBAND,   200, 1,  8,  4, 0},
-   {"silk_wb_60_m", 16000, 1, OPUS_APPLICATION_VOIP, 16000, MODE_SILK_ONLY, OPUS_BANDWIDTH_WIDEBAND,   600, 0,  3, -1, 0},
-   {"hyb_swb_20_m", 24000, 1, OPUS_APPLICATION_VOIP, 28000, MODE_HYBRID,    OPUS_BANDWIDTH_SUPERWIDEBAND, 200, 0, 7, -1, 0},
-   {"hyb_fb_10_s",  48000, 2, OPUS_APPLICATION_AUDIO, 44000, MODE_HYBRID,   OPUS_BANDWIDTH_FULLBAND,   100, 0, 10, -1, 0},
-   {"celt_fb_20_s", 48000, 2, OPUS_APPLICATION_AUDIO, 64000, MODE_CELT_ONLY, OPUS_BANDWIDTH_FULLBAND,  200, 0,  5, -1, 0},
-   {"celt_wb_5_m",  16000, 1, OPUS_APPLICATION_AUDIO, 36000, MODE_CELT_ONLY, OPUS_BANDWIDTH_WIDEBAND,   50, 0, 20, -1, 0},
-   {"trans_m",      48000, 1, OPUS_APPLICATION_VOIP, 20000, MODE_SILK_ONLY, OPUS_BANDWIDTH_FULLBAND,   200, 0, 10, -1, 1},
+   /* steady state */
+   {"silk_nb_20_m",  8000, 1, OPUS_APPLICATION_VOIP, 200, 9, 0, -1, 0, {{MODE_SILK_ONLY, OPUS_BANDWIDTH_NARROWBAND, 10000, 6}}},
+   {"silk_mb_10_m", 12000, 1, OPUS_APPLICATION_VOIP, 100, 9, 0, -1, 0, {{MODE_SILK_ONLY, OPUS_BANDWIDTH_MEDIUMBAND, 14000, 10}}},
+   {"silk_wb_20_s", 16000, 2, OPUS_APPLICATION_VOIP, 200, 9, 1,  4, 0, {{MODE_SILK_ONLY, OPUS_BANDWIDTH_WIDEBAND, 26000, 8}}},
+   {"silk_wb_60_m", 16000, 1, OPUS_APPLICATION_VOIP, 600, 9, 0, -1, 0, {{MODE_SILK_ONLY, OPUS_BANDWIDTH_WIDEBAND, 16000, 3}}},
+   {"hyb_swb_20_m", 24000, 1, OPUS_APPLICATION_VOIP, 200, 9, 0, -1, 0, {{MODE_HYBRID, OPUS_BANDWIDTH_SUPERWIDEBAND, 28000, 5}}},
+   {"hyb_fb_10_s",  48000, 2, OPUS_APPLICATION_AUDIO, 100, 9, 0, -1, 0, {{MODE_HYBRID, OPUS_BANDWIDTH_FULLBAND, 44000, 8}}},
+   {"celt_fb_20_s", 48000, 2, OPUS_APPLICATION_AUDIO, 200, 9, 0, -1, 0, {{MODE_CELT_ONLY, OPUS_BANDWIDTH_FULLBAND, 64000, 4}}},
+   {"celt_wb_5_m",  16000, 1, OPUS_APPLICATION_AUDIO,  50, 9, 0, -1, 0, {{MODE_CELT_ONLY, OPUS_BANDWIDTH_WIDEBAND, 36000, 12}}},
+   /* every ordered triple of modes, 20 ms mono, forced modes */
+   TRIPLE("t_SHS", SEG_S, SEG_H, SEG_S), TRIPLE("t_SHC", SEG_S, SEG_H, SEG_C), TRIPLE("t_SCS", SEG_S, SEG_C, SEG_S),
+   TRIPLE("t_SCH", SEG_S, SEG_C, SEG_H), TRIPLE("t_HSH", SEG_H, SEG_S, SEG_H), TRIPLE("t_HSC", SEG_H, SEG_S, SEG_C),
+   TRIPLE("t_HCH", SEG_H, SEG_C, SEG_H), TRIPLE("t_HCS", SEG_H, SEG_C, SEG_S), TRIPLE("t_CSC", SEG_C, SEG_S, SEG_C),
+   TRIPLE("t_CSH", SEG_C, SEG_S, SEG_H), TRIPLE("t_CHC", SEG_C, SEG_H, SEG_C), TRIPLE("t_CHS", SEG_C, SEG_H, SEG_S),
+   /* 10 ms stereo round trips */
+   TRIPLE10S("t10s_HSH", SEG_H, SEG_S, SEG_H), TRIPLE10S("t10s_CSC", SEG_C, SEG_S, SEG_C),
+   TRIPLE10S("t10s_HCH", SEG_H, SEG_C, SEG_H),
+   /* switches driven by OPUS_SET_BANDWIDTH with the mode left to the encoder (what a VoIP sender does) */
+   {"bw_fb_wb_fb_m",   48000, 1, OPUS_APPLICATION_VOIP, 200, 10, 0, -1, 1, {{0, OPUS_BANDWIDTH_FULLBAND, 32000, 4}, {0, OPUS_BANDWIDTH_WIDEBAND, 32000, 3}, {0, OPUS_BANDWIDTH_FULLBAND, 32000, 4}}},
+   {"bw_swb_nb_swb_s", 48000, 2, OPUS_APPLICATION_VOIP, 200, 10, 0, -1, 1, {{0, OPUS_BANDWIDTH_SUPERWIDEBAND, 40000, 3}, {0, OPUS_BANDWIDTH_NARROWBAND, 24000, 3}, {0, OPUS_BANDWIDTH_SUPERWIDEBAND, 40000, 3}}},
+   {"bw_fb_mb_fb_m_60", 48000, 1, OPUS_APPLICATION_VOIP, 600, 10, 0, -1, 1, {{0, OPUS_BANDWIDTH_FULLBAND, 28000, 1}, {0, OPUS_BANDWIDTH_MEDIUMBAND, 18000, 1}, {0, OPUS_BANDWIDTH_FULLBAND, 28000, 2}}},
+   /* low-rate SILK <-> CELT switches (little or no room for redundancy frames) */
+   {"lo_SCS_nb", 16000, 1, OPUS_APPLICATION_VOIP, 200, 5, 0, -1, 1, {{MODE_SILK_ONLY, OPUS_BANDWIDTH_NARROWBAND, 7000, 3}, {MODE_CELT_ONLY, OPUS_BANDWIDTH_NARROWBAND, 9000, 3}, {MODE_SILK_ONLY, OPUS_BANDWIDTH_NARROWBAND, 7000, 3}}},
+   {"lo_CSC_wb", 16000, 1, OPUS_APPLICATION_VOIP, 200, 5, 0, -1, 1, {{MODE_CELT_ONLY, OPUS_BANDWIDTH_WIDEBAND, 12000, 3}, {MODE_SILK_ONLY, OPUS_BANDWIDTH_WIDEBAND, 9000, 3}, {MODE_CELT_ONLY, OPUS_BANDWIDTH_WIDEBAND, 12000, 3}}},
+   /* onsets after digital silence, low-complexity encoders (inter-coded onsets) */
+   ONSET("on_celt_fb_10_m_c2",  48000, 1, 100, 2, MODE_CELT_ONLY, OPUS_BANDWIDTH_FULLBAND, 64000, 22),
+   ONSET("on_celt_fb_20_s_c0",  48000, 2, 200, 0, MODE_CELT_ONLY, OPUS_BANDWIDTH_FULLBAND, 96000, 11),
+   ONSET("on_celt_fb_20_m_c3",  48000, 1, 200, 3, MODE_CELT_ONLY, OPUS_BANDWIDTH_FULLBAND, 48000, 11),
+   ONSET("on_celt_swb_5_m_c1",  24000, 1,  50, 1, MODE_CELT_ONLY, OPUS_BANDWIDTH_SUPERWIDEBAND, 56000, 44),
+   ONSET("on_celt_wb_2p5_m_c3", 16000, 1,  25, 3, MODE_CELT_ONLY, OPUS_BANDWIDTH_WIDEBAND, 64000, 88),
+   ONSET("on_celt_nb_10_s_c1",   8000, 2, 100, 1, MODE_CELT_ONLY, OPUS_BANDWIDTH_NARROWBAND, 40000, 22),
+   ONSET("on_celt_fb_5_m_c0",   48000, 1,  50, 0, MODE_CELT_ONLY, OPUS_BANDWIDTH_FULLBAND, 80000, 44),
+   ONSET("on_hyb_fb_20_m_c2",   48000, 1, 200, 2, MODE_HYBRID,    OPUS_BANDWIDTH_FULLBAND, 36000, 11),
+   ONSET("on_hyb_swb_10_m_c1",  48000, 1, 100, 1, MODE_HYBRID,    OPUS_BANDWIDTH_SUPERWIDEBAND, 32000, 22),
 };
+static void gen_corpus_audio(int kind, uint64_t seed, int Fs, int ch, long n, opus_int16 *x)
+{
+   vrng r; long i; double ph = 0, f0 = 140; uint64_t ns = seed * 2654435761ULL + 12345;
+   r.s = seed;
+   if (kind == 0) { gen_audio(&r, Fs, ch, n, x); return; }
+   for (i = 0; i < n; i++) {
+      double s = 0, nz, t_ms = 1000.0 * i / Fs; int h, on = 1;
+      if (kind == 2) on = (t_ms >= 20.0 && t_ms < 100.0) || t_ms >= 160.0;
+      ns = ns * 6364136223846793005ULL + 1442695040888963407ULL;
+      nz = ((double)(ns >> 40) / (double)(1 << 24)) - 0.5;
+      f0 = 140 + 40 * sin(2 * M_PI * i / (0.35 * Fs));
+      ph += 2 * M_PI * f0 / Fs;
+      for (h = 1; h * f0 < Fs * 0.45 && h <= 120; h++) s += sin(h * ph + h) / sqrt((double)h);
+      s = 2200 * s + 700 * nz;
+      if (!on) s = 0;
+      if (ch == 1) x[i] = (opus_int16)s;
+      else { x[2 * i] = (opus_int16)(0.9 * s); x[2 * i + 1] = (opus_int16)(on ? 0.6 * s + 500 * nz : 0); }
+   }
+}
 static void run_corpusgen(const char *dir)
 {
    char path[1024]; FILE *fi, *fr; unsigned k;
@@ -684,42 +739,49 @@ static void run_corpusgen(const char *dir)
    snprintf(path, sizeof path, "%s/ref48.s16", dir); fr = fopen(path, "wb");
    if (!fi || !fr) { fprintf(stderr, "cannot write corpus to %s\n", dir); exit(9); }
    for (k = 0; k < sizeof(CORPUS) / sizeof(CORPUS[0]); k++) {
-      const cstream *c = &CORPUS[k]; vrng r; int err, f, fsz = c->dur10 == 50 ? c->Fs / 200 : c->Fs / 100 * c->dur10 / 100; long total = 0;
+      const cstream *c = &CORPUS[k]; int err, f = 0, g, sg, fsz = (int)((long)c->Fs * c->dur10 / 10000), nframes = 0; long total = 0;
+      int nm[3] = {0, 0, 0}, nred = 0;
       OpusEncoder *e = opus_encoder_create(c->Fs, c->ch, c->app, &err);
       OpusDecoder *d = opus_decoder_create(48000, c->ch, &err);
-      enccfg cfg; memset(&cfg, 0, sizeof cfg);
-      cfg.bitrate = c->bitrate; cfg.vbr = 1; cfg.fec = c->fec; cfg.loss = c->fec ? 25 : 0; cfg.dtx = 0; cfg.force_mode = c->mode; cfg.maxbw = c->maxbw; cfg.cx = 9;
-      apply_cfg(e, &cfg);
-      r.s = 0xC03C03ULL + k * 7919;
-      gen_audio(&r, c->Fs, c->ch, (long)c->nframes * fsz, audio);
+      for (sg = 0; sg < 4; sg++) nframes += c->seg[sg].nframes;
+      if ((long)nframes * fsz * c->ch > (long)(sizeof(audio) / sizeof(audio[0]))) { fprintf(stderr, "corpus stream %s too long\n", c->name); exit(9); }
+      gen_corpus_audio(c->sig, 0xC03C03ULL + k * 7919, c->Fs, c->ch, (long)nframes * fsz, audio);
+      opus_encoder_ctl(e, OPUS_SET_COMPLEXITY(c->cx)); opus_encoder_ctl(e, OPUS_SET_VBR(1));
+      opus_encoder_ctl(e, OPUS_SET_INBAND_FEC(c->fec)); opus_encoder_ctl(e, OPUS_SET_PACKET_LOSS_PERC(c->fec ? 25 : 0));
       fprintf(fi, "S %s %d\n", c->name, c->ch);
-      for (f = 0; f < c->nframes; f++) {
-         long n; int ret;
-         if (c->trans && f == 3) { cfg.force_mode = MODE_HYBRID; cfg.bitrate = 32000; apply_cfg(e, &cfg); }
-         if (c->trans && f == 6) { cfg.force_mode = MODE_CELT_ONLY; cfg.bitrate = 48000; apply_cfg(e, &cfg); }
-         if (c->trans && f == 8) { cfg.force_mode = MODE_SILK_ONLY; cfg.bitrate = 16000; cfg.maxbw = OPUS_BANDWIDTH_WIDEBAND; apply_cfg(e, &cfg); }
-         n = opus_encode(e, audio + (long)f * fsz * c->ch, fsz, pk, 1500);
-         if (n < 1) { fprintf(stderr, "encode failed\n"); exit(9); }
-         if (f == c->lose_at) {
-            int spf48 = opus_packet_get_samples_per_frame(pk, 48000);
-            fprintf(fi, "L %d\n", spf48);
-            ret = opus_decode(d, NULL, 0, out, spf48, 0);
+      for (sg = 0; sg < 4; sg++) {
+         const cseg *q = &c->seg[sg];
+         if (!q->nframes) continue;
+         opus_encoder_ctl(e, OPUS_SET_BITRATE(q->bitrate));
+         if (q->mode) { opus_encoder_ctl(e, OPUS_SET_FORCE_MODE(q->mode)); opus_encoder_ctl(e, OPUS_SET_MAX_BANDWIDTH(OPUS_BANDWIDTH_FULLBAND)); opus_encoder_ctl(e, OPUS_SET_BANDWIDTH(q->bw)); }
+         else { opus_encoder_ctl(e, OPUS_SET_FORCE_MODE(OPUS_AUTO)); opus_encoder_ctl(e, OPUS_SET_MAX_BANDWIDTH(OPUS_BANDWIDTH_FULLBAND)); opus_encoder_ctl(e, OPUS_SET_BANDWIDTH(q->bw)); }
+         for (g = 0; g < q->nframes; g++, f++) {
+            long n; int ret;
+            n = opus_encode(e, audio + (long)f * fsz * c->ch, fsz, pk, 1500);
+            if (n < 1) { fprintf(stderr, "encode failed\n"); exit(9); }
+            nm[(pk[0] & 0x80) ? 2 : ((pk[0] & 0x60) == 0x60 ? 1 : 0)]++;
+            if (f == c->lose_at) {
+               int spf48 = opus_packet_get_samples_per_frame(pk, 48000);
+               fprintf(fi, "L %d\n", spf48);
+               ret = opus_decode(d, NULL, 0, out, spf48, 0);
+               if (ret > 0) { fwrite(out, 2 * c->ch, ret, fr); total += ret; }
+               continue;
+            }
+            if (f == c->lose_at + 1 && c->lose_at >= 0) {   /* the LBRR decode path on the PCM side, as an extra frame */
+               int spf48 = opus_packet_get_samples_per_frame(pk, 48000);
+               fprintf(fi, "P 1 "); vhex(fi, pk, n); fprintf(fi, "\n");
+               ret = opus_decode(d, pk, (opus_int32)n, out, spf48, 1);
+               if (ret > 0) { fwrite(out, 2 * c->ch, ret, fr); total += ret; }
+            }
+            fprintf(fi, "P 0 "); vhex(fi, pk, n); fprintf(fi, "\n");
+            g_pkt = pk; g_pktlen = n; g_recording = 1; g_reclen = 0; g_hybrid = 0; { long before = g_dist[10];
+            ret = opus_decode(d, pk, (opus_int32)n, out, 5760, 0);
+            g_recording = 0; g_pkt = NULL; nred += (int)(g_dist[10] - before); }
             if (ret > 0) { fwrite(out, 2 * c->ch, ret, fr); total += ret; }
-            continue;
          }
-         if (f == c->lose_at + 1 && c->lose_at >= 0) {
-            /* the packet after the loss is first decoded for its FEC data — replacing nothing here: the lost frame was
-               concealed above; this exercises the LBRR decode path on the PCM side as an extra frame */
-            int spf48 = opus_packet_get_samples_per_frame(pk, 48000);
-            fprintf(fi, "P 1 "); vhex(fi, pk, n); fprintf(fi, "\n");
-            ret = opus_decode(d, pk, (opus_int32)n, out, spf48, 1);
-            if (ret > 0) { fwrite(out, 2 * c->ch, ret, fr); total += ret; }
-         }
-         fprintf(fi, "P 0 "); vhex(fi, pk, n); fprintf(fi, "\n");
-         ret = opus_decode(d, pk, (opus_int32)n, out, 5760, 0);
-         if (ret > 0) { fwrite(out, 2 * c->ch, ret, fr); total += ret; }
       }
       fprintf(fi, "N %ld\n", total);
+      fprintf(stderr, "%-20s silk=%d hybrid=%d celt=%d redundancy_frames=%d samples48=%ld\n", c->name, nm[0], nm[1], nm[2], nred, total);
       opus_encoder_destroy(e); opus_decoder_destroy(d);
    }
    fclose(fi); fclose(fr);
